@@ -241,7 +241,9 @@ func genArgFor(t *rapid.T, g *genState, c *Callable, name string) VD {
 	case has(name, "str", "sep", "cutset", "pattern", "format", "text", "timestamp", "duration-string", "json-string", "source-code",
 		"source-location", "base64-data", "field-name", "name", "key", "package-name", "docstring", "matchKey", "condition", "symbol", "sym",
 		"var-name", "pkg-name", "message"):
-		switch rapid.IntRange(0, 5).Draw(t, "sk") {
+		switch rapid.IntRange(0, 8).Draw(t, "sk") {
+		case 6, 7, 8:
+			return VD{K: "str", S: genMutStr(t)}
 		case 0:
 			return VD{K: "sym", S: []byte(rapid.SampledFrom(hostileSyms).Draw(t, "s")), Q: rapid.IntRange(0, 1).Draw(t, "q")}
 		case 1:
